@@ -184,8 +184,48 @@ def stage2(work_dir, resume, layer):
                 mod.open = old
 
 
-STAGES = {"collect": stage, "process": stage2}
-LOCKS = {"collect": "_collected", "process": "_processed"}
+class OsRec:
+    """os proxy for src.file_utils: records removals of watched files"""
+    def __init__(self, layer):
+        self._l = layer
+        self.path = os.path
+
+    def remove(self, p):
+        self._l.event("remove", p, 0)
+        return os.remove(p)
+
+    def __getattr__(self, n):
+        return getattr(os, n)
+
+
+def stage3(work_dir, resume, layer):
+    """the real merge_files over two per-chromosome parts, called the way merge_assignments calls it"""
+    import src.file_utils as fu
+    label, chrs = "smp", ["chr1", "chr2"]
+    merged = os.path.join(work_dir, "smp.corrected_reads.bed")
+    if not resume:
+        for c in chrs:
+            with builtins.open(os.path.join(work_dir, "smp_%s.corrected_reads.bed" % c), "w") as fh:
+                fh.write("#header\n%s\t1\t2\tread_%s\n" % (c, c))
+    saved = (fu.os, fu.__dict__.get("open"))
+    fu.os = OsRec(layer)
+    fu.open = layer.open
+    try:
+        handler = layer.open(merged, "w")
+        fu.merge_files(merged, label, chrs, handler, copy_header=False)
+        handler.close()
+        content = builtins.open(merged).read()
+        return {"merged_records": sorted(l.split("\t")[0] for l in content.splitlines() if l and not l.startswith("#"))}
+    finally:
+        fu.os = saved[0]
+        if saved[1] is None:
+            fu.__dict__.pop("open", None)
+        else:
+            fu.open = saved[1]
+
+
+STAGES = {"collect": stage, "process": stage2, "merge": stage3}
+LOCKS = {"collect": "_collected", "process": "_processed", "merge": None}
 
 
 def main():
